@@ -85,7 +85,15 @@ def c02_runs(tier):
                     acts=A_UNREG | A_SETH, A=2, L=2, symtruth=0, wr=1, patterns=2)
     r += per_method('level', [0, 3] if q else [0, 1, 2, 3], ['fd.in-handler-ran', 'fd.err-handler-ran'],
                     K=1, R=3, acts=A_SETH, A=1, L=2, symtruth=2, persist=1, patterns=3)
+    r += try_then_register(tier)
     return r
+
+
+def try_then_register(tier):
+    # a failed iv_fd_register_try, then the same struct (no IV_FD_INIT) is registered for good
+    return per_method('try-fails-then-register', [0, 3] if tier == 'quick' else [0, 1, 2, 3],
+                      ['fd.struct-kept-after-failed-try', 'fd.struct-reused-without-init', 'fd.in-handler-ran'],
+                      K=2, R=2, acts=A_REG | A_TRY, A=2, L=2, symtruth=1, patterns=2, faults=1, lastunreg=1)
 
 
 def c03_runs(tier):
@@ -99,7 +107,21 @@ def c03_runs(tier):
     # a registration attempt that fails (descriptor number closed at that moment, reused afterwards)
     r += per_method('try-fails', [1, 2, 3] if q else [0, 1, 2, 3], ['C07.register_try-fails', 'fd.in-handler-ran'],
                     K=2, R=2, acts=A_UNREG | A_TRY, A=2, L=2, symtruth=1, patterns=2, faults=1)
+    r += try_then_register(tier)
+    # an event handler replaces a connection whose readiness was collected in the same poll: same struct, new
+    # descriptor on which nothing ever arrives
+    for m, nm in ((0, 'epoll-timerfd'), (1, 'epoll'), (3, 'poll')):
+        r.append(mt_run('event-handler-reuses-fd-struct.' + nm, 'harness/event.c',
+                        ['event.handler-reuses-fd-struct-of-same-batch', 'event.fd-in-same-batch-handled'],
+                        preempt=2, E=1, P=1, Q=1, method=m, withfd=3))
     return r
+
+
+def timerfd_task(tier):
+    # timers x descriptors x tasks: the timeout has moved into the timer descriptor (>= 5 sleeps on the same
+    # earliest timer), then a task is registered and keeps the loop on zero-timeout polls while time passes
+    return per_method('timerfd+task', [0], ['C04.timerfd-armed', 'task.handler-ran', 'timer.handler-ran'], K=1, T=2,
+                      J=1, R=9, acts=A_TASK, A=1, L=2, symtruth=0, symtime=2, patterns=1, jreg=0)
 
 
 def c04_runs(tier):
@@ -119,6 +141,7 @@ def c04_runs(tier):
     # the earliest expiry the loop sleeps on is the root of the timer store: its order invariant
     for N in (7, 8):
         r.append(timers_run('store.step.N%d' % N, covers=['C05.step-unregister'], mode=1, N=N, sym=3))
+    r += timerfd_task(tier)
     return r
 
 
@@ -131,7 +154,8 @@ def c06_runs(tier):
     return nofd + per_method('tasks', [0, 2] if q else [0, 1, 2, 3],
                       ['task.handler-ran', 'C06.deferred-reregistration-observed', 'timer.handler-ran',
                        'fd.in-handler-ran'],
-                      K=1, T=1, J=2 if q else 3, R=3, acts=A_TASK, A=2, L=3 if q else 4, symtruth=0, patterns=1)
+                      K=1, T=1, J=2 if q else 3, R=3, acts=A_TASK, A=2, L=3 if q else 4, symtruth=0, patterns=1) + \
+        timerfd_task(tier)
 
 
 def c07_runs(tier):
@@ -146,7 +170,8 @@ def c07_runs(tier):
         mt_run('event-register-fails.ppoll', 'harness/event.c',
                ['C07.event-register-fails', 'C07.loop-returns-after-failed-registration'], preempt=0, regfail=1,
                method=2, P=0)] + per_method('timerfd-cycle', [0], ['C04.timerfd-armed', 'timer.handler-ran'], K=1, T=2,
-                                             R=8, acts=A_TIMER, A=1, L=1, symtruth=0, symtime=2, patterns=1)
+                                             R=8, acts=A_TIMER, A=1, L=1, symtruth=0, symtime=2, patterns=1) + \
+        timerfd_task(tier)
 
 
 def timers_run(name, defs=(), covers=(), **params):
@@ -257,6 +282,10 @@ def c08_runs(tier, hb=0):
     r.append(mt_run('owner-activity.raw', 'harness/event.c', cv + ['event.owner-posts-from-handler'],
                     preempt=3, E=2, P=1, Q=2, method=2, owner=1, ops=2, selfpost=1, hb=hb))
     r.append(mt_run('pipe-transport', 'harness/event.c', cv, preempt=3, E=2, P=2, Q=1, method=3, noeventfd=1, hb=hb))
+    # the owner posts and unregisters a still-pending event before its loop runs; a poster posts behind it
+    for m, nm in ((1, 'epoll'), (2, 'raw')):
+        r.append(mt_run('owner-pre-ops.' + nm, 'harness/event.c', cv + ['event.unregister-while-pending'],
+                        preempt=1 if q else 2, E=2, P=1, Q=1, method=m, preops=3, hb=hb))
     return r
 
 
@@ -298,7 +327,9 @@ def c10_runs(tier, hb=0):
                                      'signal.child-registers-own-interest'], preempt=1,
                 I=2, T=1, D=1, forkchild=1, hb=hb),
          mt_run('fork-child.poll', h, ['signal.child-does-not-trigger-parent', 'signal.child-registers-own-interest'],
-                preempt=0, I=2, T=1, D=1, forkchild=1, poll=1, nflags=4, hb=hb)]
+                preempt=0, I=2, T=1, D=1, forkchild=1, poll=1, nflags=4, hb=hb),
+         mt_run('concurrent-forks', h, ['signal.concurrent-forks', 'signal.handler-ran', 'signal.quiescent'],
+                preempt=2, I=1, T=1, D=1, forkers=1, nflags=1, unreg=0, hb=hb)]
     if not q:
         r.append(mt_run('two-threads.I3', h, cv, preempt=2, I=3, T=2, D=2, hb=hb))
     return r
@@ -316,7 +347,19 @@ def c11_runs(tier, hb=0):
                 preempt=1 if q else 2, C=2, strangers=0, events=4 if q else 5, kill=1, ops=2, poll=1, hb=hb),
          mt_run('two-loops.spawn-exits-at-once', h,
                 ['wait.two-loop-threads', 'wait.spawned-child-exits-at-once', 'wait.termination-delivered'],
-                preempt=2, C=1, strangers=0, events=0 if q else 1, twoloops=1, unreg=0, hb=hb)]
+                preempt=2, C=1, strangers=0, events=0 if q else 1, twoloops=1, unreg=0, hb=hb),
+         mt_run('two-loops.reaper-elsewhere', h,
+                ['wait.reaper-is-another-thread', 'wait.termination-delivered', 'wait.unregister-other-in-handler',
+                 'wait.batch-of-several-statuses'],
+                preempt=1, C=3, strangers=0, events=2 if q else 3, twoloops=2, ops=1, hb=hb),
+         # the owner unregisters an interest (an interior node of the shared tree) on its own while the
+         # reaper thread may be collecting that very child
+         mt_run('two-loops.spontaneous-unregister', h,
+                ['wait.reaper-is-another-thread', 'wait.spontaneous-unregister', 'wait.termination-delivered'],
+                preempt=1 if q else 2, C=3, strangers=0, events=2, twoloops=2, ops=0, unreg=0, spont=1, hb=hb)]
+    if not q:
+        r.append(mt_run('two-loops.reaper-elsewhere.p2', h, ['wait.batch-of-several-statuses'], preempt=2, C=3,
+                        strangers=0, events=2, twoloops=2, ops=1, hb=hb))
     return r
 
 
@@ -329,6 +372,10 @@ def c19_runs(tier):
          mt_run('type-r.poll', h, cv, preempt=0, read=1, poll=1)]
     if tier != 'quick':
         r.append(mt_run('type-w.poll', h, cv, preempt=0, read=0, poll=1))
+    # the process has another loop thread that does the reaping (its SIGCHLD interest is the one woken)
+    r.append(mt_run('reaper-elsewhere', h, ['popen.reaper-is-another-thread', 'popen.child-exits-at-once',
+                                            'popen.child-dies-from-signal', 'popen.complete-run'],
+                    preempt=1 if tier == 'quick' else 2, read=1, watcher=1))
     return r
 
 
@@ -357,6 +404,8 @@ def work_runs(tier, hb=0):
         mt_run('saturated.max1', h, base + ['work.quiescent'], preempt=p2, W=3, max=1, put=0, hb=hb),
         mt_run('null-pool', h, ['work.loop-returned-and-everything-released'], preempt=0, W=2, nullpool=1, hb=hb),
         mt_run('iv_thread', h, ['thread.joined-and-released'], preempt=2 if q else 3, threadtest=1, hb=hb),
+        mt_run('iv_thread.create-fails', h, ['thread.create-failure-survived', 'env.pthread_create-fails'],
+               preempt=1 if q else 2, threadtest=2, hb=hb),
     ]
 
 
@@ -424,14 +473,16 @@ def c18_runs(tier):
                    splice=0 if m == 2 else 1)
         x['defs'] = defs
         r.append(x)
+    # resource acquisition that fails half-way leaves nothing behind
+    r += [x for x in work_runs(tier) if x['name'] == 'iv_thread.create-fails']
     return r
 
 
 def c14_runs(tier):
     q = tier == 'quick'
     allruns = (c08_runs(tier, hb=1) + c09_runs(tier, hb=1) +
-               [x for x in c10_runs(tier, hb=1) if x['name'] in ('two-threads', 'one-thread.I2')] +
-               [x for x in c11_runs(tier, hb=1) if x['name'] in ('spawn+kill', 'two-loops.spawn-exits-at-once')] +
+               [x for x in c10_runs(tier, hb=1) if x['name'] in ('two-threads', 'one-thread.I2', 'concurrent-forks')] +
+               [x for x in c11_runs(tier, hb=1) if x['name'] in ('spawn+kill', 'two-loops.spawn-exits-at-once', 'two-loops.reaper-elsewhere', 'two-loops.spontaneous-unregister', 'two-loops.reaper-elsewhere.p2')] +
                [x for x in work_runs(tier, hb=1) if x['name'] != 'null-pool'])
     for m, nm in ((1, 'epoll'), (0, 'epoll-timerfd'), (3, 'poll')):
         allruns.append(mt_run('loops.' + nm, 'harness/loops_mt.c', ['loops.concurrent-init-run-deinit'],
@@ -439,9 +490,9 @@ def c14_runs(tier):
     allruns.append(mt_run('loops.method-switch-mid-run', 'harness/mswitch.c', ['mswitch.both-loops-completed'],
                           preempt=1 if q else 2, tfd=1, hb=1))
     if q:
-        keep = ('posters.epoll-kick', 'posters.rawevent-poll', 'owner-activity.epoll', 'pipe-transport',
-                'threads.eventfd2', 'threads.pipe', 'signal.eventfd2', 'one-thread.I2', 'spawn+kill',
-                'two-loops.spawn-exits-at-once', 'burst.max1.put-after', 'burst.max2.put-after',
+        keep = ('posters.epoll-kick', 'posters.rawevent-poll', 'owner-activity.epoll', 'pipe-transport', 'owner-pre-ops.epoll',
+                'threads.eventfd2', 'threads.pipe', 'signal.eventfd2', 'one-thread.I2', 'concurrent-forks', 'spawn+kill',
+                'two-loops.spawn-exits-at-once', 'two-loops.reaper-elsewhere', 'two-loops.spontaneous-unregister', 'burst.max1.put-after', 'burst.max2.put-after',
                 'chain.put-in-completion', 'idle-timeout.late-submit', 'continuation.put-late', 'iv_thread',
                 'loops.epoll', 'loops.epoll-timerfd', 'loops.poll', 'loops.method-switch-mid-run')
         allruns = [x for x in allruns if x['name'] in keep]
